@@ -9,11 +9,13 @@ partial def val? : Sexp → Option Val
   | .atom "none" => some .none
   | .list [.atom "num", n] => (nat? n).map .num
   | .list [.atom "pair", a, b] => do some (.pair (← val? a) (← val? b))
+  | .list [.atom "sym", k] => (nat? k).map .sym
   | _ => none
 def ofVal : Val → Sexp
   | .none => .atom "none"
   | .num n => tag "num" [ofNat n]
   | .pair a b => tag "pair" [ofVal a, ofVal b]
+  | .sym k => tag "sym" [ofNat k]
 
 def res? : Sexp → Option Res
   | .list [.atom "ok", v] => (val? v).map .ok
